@@ -121,3 +121,43 @@ Theorem C07_end_to_end_comparison : forall D has_ns hc rm rn rr,
          evaluate rm rn rr hc D has_ns q c = Val (VBool (xcompare string_to_number o x y))).
 Proof. exact C07_text_comparison. Qed.
 Print Assumptions C07_end_to_end_comparison.
+
+(* and / or from the TEXT: the combination of the XPath truth values of the operands; when the left
+   operand decides, NOTHING is assumed about the right one (any expression the builder accepts,
+   even one whose evaluation is a complaint) *)
+From XP.Proofs Require Import EndToEndBool.
+
+Theorem C07_end_to_end_and_or : forall D has_ns hc rm rn rr,
+  hash_ok (hc D) (all_nodes D) ->
+  forall re_ok ns (isor : bool) l r,
+  is_operand_px l -> is_operand_px r -> xok (XBin (bop isor) l r) ->
+  1 + osize l <= max_build_depth -> 1 + osize r <= max_build_depth ->
+  exists q,
+    compile re_ok (print_min (XBin (bop isor) l r)) ns = Ok q /\
+    compile re_ok (print_sp (XBin (bop isor) l r)) ns = Ok q /\
+    forall c, valid D c = true ->
+    exists m n x y, opval D has_ns l c m /\ opval D has_ns r c n /\ abs D m = Some x /\ abs D n = Some y /\
+      evaluate rm rn rr hc D has_ns q c = Val (VBool (bcomb isor (truth m) (truth n))) /\
+      evaluate rm rn rr hc D has_ns q c = Val (VBool (bcomb isor (xboolean x) (xboolean y))).
+Proof. exact C07_text_and_or. Qed.
+Print Assumptions C07_end_to_end_and_or.
+
+Theorem C07_end_to_end_short_circuit : forall D has_ns hc rm rn rr,
+  hash_ok (hc D) (all_nodes D) ->
+  forall re_ok ns (isor : bool) l r,
+  is_operand_px l -> 1 + osize l <= max_build_depth ->
+  xwf (XBin (bop isor) l r) -> xok (XBin (bop isor) l r) -> xdepth (XBin (bop isor) l r) < max_depth ->
+  (forall fi, exists q2 pr2 fi2, process re_ok 1 (xast r) fl_none fi = Ok (q2, pr2, fi2)) ->
+  exists q1 q2,
+    compile re_ok (print_min (XBin (bop isor) l r)) ns = Ok (QBoolean isor q1 q2) /\
+    compile re_ok (print_sp (XBin (bop isor) l r)) ns = Ok (QBoolean isor q1 q2) /\
+    (exists fi pr2 fi2, process re_ok 1 (xast r) fl_none fi = Ok (q2, pr2, fi2)) /\
+    forall c, valid D c = true ->
+    exists m, opval D has_ns l c m /\
+      (truth m = isor -> evaluate rm rn rr hc D has_ns (QBoolean isor q1 q2) c = Val (VBool isor)) /\
+      (truth m = negb isor -> forall n, eval D has_ns (hc D) rm rn rr q2 c = Val n -> not_int n ->
+         evaluate rm rn rr hc D has_ns (QBoolean isor q1 q2) c = Val (VBool (truth n))) /\
+      (truth m = negb isor -> (forall v, eval D has_ns (hc D) rm rn rr q2 c <> Val v) ->
+         evaluate rm rn rr hc D has_ns (QBoolean isor q1 q2) c = eval D has_ns (hc D) rm rn rr q2 c).
+Proof. exact C07_text_short_circuit. Qed.
+Print Assumptions C07_end_to_end_short_circuit.
